@@ -424,10 +424,55 @@ pub fn run(ctx: &Ctx) -> Result<(), String> {
         ctx.cov("server_multi_batch_bursts", json!(nplans));
     }
 
+    // the proof as the CLIENT BINARY uses it: the real client against the reference responder, the
+    // reply's PATH / INDX / ROOT changed so that the proof no longer binds the client's request
+    {
+        use super::c01::{execute, Op, Scenario};
+        use rtref::responder::Stamp;
+        let ops = [
+            Op::SetField("PATH", "drop-last"), Op::SetField("PATH", "drop-first"), Op::SetField("PATH", "append"), Op::SetField("PATH", "swap"), Op::SetField("PATH", "zero-element"), Op::SetField("PATH", "half-element"),
+            Op::SetField("INDX", "other"), Op::SetField("INDX", "sibling"), Op::SetField("INDX", "out-of-range"), Op::SetField("ROOT", "zero"), Op::SetField("ROOT", "leaf-only"),
+            Op::OtherRequest("same-batch-neighbour"), Op::OtherRequest("other-batch"), Op::Resign("root-of-other-batch"), Op::Resign("root-empty"), Op::Resign("root-half"),
+        ];
+        let shapes: Vec<(usize, usize)> = ctx.tier.pick(vec![(1, 0), (2, 1), (3, 2)], vec![(1, 0), (2, 0), (2, 1), (3, 2), (5, 4), (8, 3), (64, 63)]);
+        let mut cases = vec![];
+        for v in [Version::Classic, Version::Ietf13] {
+            for &(n, i) in &shapes {
+                for (k, _) in ops.iter().enumerate() {
+                    cases.push((v, n, i, k));
+                }
+            }
+        }
+        let lt_pk = super::c01::s1().lt_pk();
+        let client_n = AtomicU64::new(0);
+        let failed: Mutex<Option<String>> = Mutex::new(None);
+        par_for(cases.len(), 8, |c, _| {
+            let (v, n, i, k) = cases[c];
+            let sc = Scenario { v, n, i, stamp: Stamp::at(v, 1_790_000_000, 77) };
+            match execute(&sc, &ops[k], Some(false), false, &[]) {
+                Err(e) => *failed.lock().unwrap() = Some(e),
+                Ok(out) => {
+                    client_n.fetch_add(1, Relaxed);
+                    if out.accepted {
+                        if let Err(cl) = rtref::verifier::authentic(&out.reply, &out.run.requests[0].0, v, Some(&lt_pk), rtref::verifier::CLIENT_VIEW) {
+                            ctx.violation("client-accepts-unbound-proof", cl, &format!("{}/{}", v.name(), ops[k].name()), json!({"kind":"client-proof","version":v.name(),"n":n,"i":i,"op":ops[k].name(),
+                                "message":"the client accepted a reply whose PATH/INDX/ROOT do not bind its request (reference verifier rejects)","reply":crate::util::hex_trunc(&out.reply, 4096),"stdout":out.run.exit.stdout}));
+                        }
+                    }
+                }
+            }
+        });
+        if let Some(e) = failed.lock().unwrap().take() {
+            return Err(e);
+        }
+        evals.fetch_add(client_n.load(Relaxed), Relaxed);
+        ctx.cov("client_binary_proof_cases", json!(client_n.load(Relaxed)));
+    }
+
     let ev = evals.load(Relaxed);
     ctx.cov("evaluations", json!(ev));
     ctx.cov("distinct_nontrivial", json!(nontrivial.load(Relaxed) + reuse_n));
-    ctx.cov("rule", json!("shapes: every leaf count n in 1..=255 x both hash profiles x 5 leaf families (incl. request-sized leaves sharing a 640-byte prefix), every position i<n (completeness: own recompute and independent recompute with the protocol's node width); binding (distinct leaves): every other leaf, every other in-range index, one-bit change per path element (thorough: per path byte), one element appended, first/last element removed; reuse: all ordered pairs of batch sizes from the tier's size set and all triples over {1,2,3,4,5,7,8,9,16,17} on one reused tree vs fresh trees. issued proofs: the real Responder driven with every sequence of batch sizes of length <= 3 over {1..5} (thorough <= 4 over {1..6}) and pairs over {1,2,33,64}, both protocols, each reply authentic for its own request; through a long-running in-process Server: bursts of 1/3/5 requests of every request size class, and bursts larger than the batch size (batch_size 1, 2, 4, 64; up to 3 batches in one wake-up; protocol mixes). Non-trivial = a position in a tree with n>=2 (path non-empty) or a reuse history; evaluations counts every root recomputation/comparison."));
+    ctx.cov("rule", json!("shapes: every leaf count n in 1..=255 x both hash profiles x 5 leaf families (incl. request-sized leaves sharing a 640-byte prefix), every position i<n (completeness: own recompute and independent recompute with the protocol's node width); binding (distinct leaves): every other leaf, every other in-range index, one-bit change per path element (thorough: per path byte), one element appended, first/last element removed; reuse: all ordered pairs of batch sizes from the tier's size set and all triples over {1,2,3,4,5,7,8,9,16,17} on one reused tree vs fresh trees. issued proofs: the real Responder driven with every sequence of batch sizes of length <= 3 over {1..5} (thorough <= 4 over {1..6}) and pairs over {1,2,33,64}, both protocols, each reply authentic for its own request; through a long-running in-process Server: bursts of 1/3/5 requests of every request size class, and bursts larger than the batch size (batch_size 1, 2, 4, 64; up to 3 batches in one wake-up; protocol mixes); and the real client binary against the reference responder with PATH / INDX / ROOT changed (elements dropped, appended, swapped, zeroed; other index; root of another batch / a leaf / not a node; replies of other requests): never accepted. Non-trivial = a position in a tree with n>=2 (path non-empty) or a reuse history; evaluations counts every root recomputation/comparison."));
     ctx.cov("shapes", json!(shapes));
     ctx.cov("reuse_histories", json!(reuse_n));
     ctx.cov("binding_sizes", json!(binding_ns.len()));
